@@ -332,6 +332,9 @@ def run(idx, rep, tier):
     rep.floor("key-advance", 1)
     rep.floor("key-forward", 3)
     rep.floor("rng-alias", 1)
+    # ---- probe distribution, key, tolerance and cap reach the estimator from every entry point
+    from sa.autorule import passthrough_in
+    passthrough_in(idx, rep, ("trace.diagonal_estimation", ), ("Hutch", "HutchPP", "Exact"), ("rand", "key", "tol", "max_iters", "bs"), 5)
     rep.explanation = ("Who-may-call + typestate: every reference to numpy.random / random / torch RNG state in cola/ is collected through import "
                        "resolution; perturbing calls must sit inside a get_state/set_state bracket on every path (structured abstract interpretation over "
                        "{clean,saved,dirty,leaked}); key def-use chains of every xnp.randn call site; loop-carried keys must advance; cap certificate of "
